@@ -7,6 +7,9 @@ from ..rules import where, path_actions, pickle_state_agreement
 from ..loader import AnalysisError
 from ..staterules import state_roundtrip
 from . import common
+from .. import alg
+from ..alg import Poly, sym, lt
+from ..interp import Interp, Hooks, Foreign, Obj, Arr, Unk, PyRaise, symarr, scalar, num
 
 EXPLANATION = (
     "Decides on every control-flow path: (CFG-1) in fit() each loop iteration reads one line, builds one Source, and "
@@ -189,6 +192,188 @@ def check_fit_loop(ctx):
                '%s.close() after the loop' % fout, 'the writer is never closed after the loop', 'no-close')
 
 
+# ---------------------------------------------------------------- the driver, interpreted
+
+class _Stand(Foreign):
+    """stand-ins for the objects fit() drives: the Fitter, the output FitInfoFile, the timer and the open data file"""
+    def __init__(self, hooks, kind):
+        self.hooks, self.kind = hooks, kind
+
+    def sl_getattr(self, interp, name, node):
+        if self.kind == 'fitter' and name == 'filters':
+            return []
+        return NotImplemented
+
+    def sl_setattr(self, interp, name, val, node):
+        self.hooks.events.append(('setattr', self.kind, name, val, interp.path_cond()))
+
+    def sl_method(self, interp, name, args, kw, node):
+        h = self.hooks
+        if self.kind == 'fitter' and name == 'fit' and args:
+            k = len(h.fitted) + 1
+            info = Obj(interp.repo.cls('fit_info', 'FitInfo'), {'source': args[0], 'model_fluxes': symarr('mf%d' % k, ('r', 'w')), 'chi2': symarr('chi2_%d' % k, ('r',)),
+                                                                'av': symarr('av_%d' % k, ('r',)), 'sc': symarr('sc_%d' % k, ('r',)), 'model_name': symarr('mn_%d' % k, ('r',)),
+                                                                'model_id': symarr('id_%d' % k, ('r',))})
+            info.attrs['__tag__'] = k
+            h.fitted.append((args[0], info, dict(info.attrs)))
+            return info
+        if self.kind == 'out' and name == 'write' and args:
+            info = args[0]
+            h.events.append(('write', info, interp.path_cond(), dict(info.attrs) if isinstance(info, Obj) else None))
+            return None
+        if self.kind == 'out' and name == 'close':
+            h.events.append(('close', interp.path_cond()))
+            return None
+        if self.kind == 'timer':
+            return None
+        if self.kind == 'data' and name == 'readline':
+            h.nread += 1
+            return 'LINE%d' % h.nread if h.nread <= h.nlines else ''
+        if self.kind == 'data' and name == 'close':
+            return None
+        return NotImplemented
+
+
+class DriverHooks(Hooks):
+    def __init__(self, repo, nlines=2):
+        self.repo, self.nlines = repo, nlines
+        self.events, self.fitted, self.nread, self.sources = [], [], 0, []
+
+    def construct(self, interp, ci, args, kwargs, node):
+        if ci.name == 'Fitter':
+            return _Stand(self, 'fitter')
+        if ci.name == 'FitInfoFile':
+            self.events.append(('open', list(args), dict(kwargs)))
+            return _Stand(self, 'out')
+        if ci.name == 'Timer':
+            return _Stand(self, 'timer')
+        return NotImplemented
+
+    def opaque(self, interp, fi, args, kwargs, node):
+        q = fi.qual
+        if q.endswith(':Source.from_ascii'):
+            line = args[-1] if args else kwargs.get('line')
+            if line == '':
+                raise PyRaise('EOFError', 'end of the data file')
+            if isinstance(line, str) and line.startswith('LINE'):
+                k = int(line[4:])
+                s = Obj(self.repo.cls('source.source', 'Source'), {'_valid': symarr('valid%d' % k, ('w',), unit=num(1)), '_name': 'S%d' % k})
+                self.sources.append((k, s))
+                return s
+            return Unk('from_ascii(%r)' % (line,))
+        if q.endswith(':FitInfo.keep'):
+            self.events.append(('keep', args[0] if args else None, list(args[1:]), interp.path_cond()))
+            return None
+        if q.endswith(':delete_file') or fi.name in ('display',):
+            return None
+        return NotImplemented
+
+
+def check_fit_driver_semantic(ctx):
+    """(CFG-1) fit() interpreted on a data file of two lines followed by the end of input, with symbolic flags for each source and a symbolic n_data_min: the
+    records handed to the writer, each under the condition it is written under, must be - for every source, in input order - exactly one record under
+    n_data >= n_data_min: the fit of that same source, after keep(output_format), with the predicted fluxes dropped exactly when output_convolved is off.
+    Returns False when the interpretation has no verdict."""
+    repo = ctx.repo
+    fit = ctx.fn(repo.func('fit', 'fit'))
+    where_ = where(fit)
+    decided = True
+    FMT = ('N', 5)
+    for oc in (True, False):
+        tag = 'output_convolved=%s' % oc
+        h = DriverHooks(repo)
+        I = Interp(repo, h)
+        I.exact_le = True
+        try:
+            r = I.call(fit, [_Stand(h, 'data'), ['F1'], symarr('ap', ('f',), unit=sym('unit:arcsec')), 'MODELS', 'OUT'],
+                       {'n_data_min': scalar(sym('nmin'), num(1)), 'output_format': FMT, 'output_convolved': oc, 'extinction_law': None, 'av_range': (0., 1.),
+                        'distance_range': symarr('dr', ('two',), unit=sym('unit:kpc'))})
+        except (AnalysisError, RecursionError) as ex:
+            r = Unk(str(ex)[:100])
+        lost = [str(x)[:80] for x in getattr(I, 'lost', [])]
+        if isinstance(r, Unk) or getattr(I, 'uncaught', None) or lost:
+            if getattr(I, 'uncaught', None):
+                ctx.violation('CFG-1', 'driver (%s): runs to the end of the input' % tag, where_, 'fit() stops with %s on a data file of two sources' % I.uncaught, 'driver-raises')
+            else:
+                ctx.undecided('CFG-1', 'driver (%s)' % tag, where_, 'not modelled: %s' % (r if isinstance(r, Unk) else lost[0]))
+                decided = False
+            continue
+        opens = [e for e in h.events if e[0] == 'open']
+        ctx.expect(len(opens) == 1 and opens[0][1][:2] == ['OUT', 'w'], 'CFG-1', 'driver (%s): writer target' % tag, where_, 'records go to FitInfoFile(output, \'w\')',
+                   'writer opened as %r' % (opens[0][1] if opens else None,), 'writer-target')
+        ctx.expect(h.nread == h.nlines + 1 and [k for k, _ in h.sources] == list(range(1, h.nlines + 1)), 'CFG-1', 'driver (%s): one line per source, to the end of input' % tag, where_,
+                   'each iteration reads one line and parses it; the loop ends at the end of input', '%d lines read for %d sources parsed from a file of %d lines' % (h.nread, len(h.sources), h.nlines), 'line-per-iteration')
+        writes = [e for e in h.events if e[0] == 'write']
+        order = []
+        for k, s in h.sources:
+            inst = 'driver (%s): source %d' % (tag, k)
+            V = sym('valid%d' % k, 'w')
+            nd = alg.sum_over(alg.eq(V, 1), 'w') + alg.sum_over(alg.eq(V, 4), 'w')
+            want = alg.b_not(lt(nd, sym('nmin')))
+            # objects are told apart by what they hold, not by identity: the branches of a data-dependent if work on copies
+            name_of = lambda o_: o_.attrs.get('_name') if isinstance(o_, Obj) else None
+            mine = [e for e in writes if isinstance(e[1], Obj) and name_of(e[1].attrs.get('source')) == 'S%d' % k]
+            fits = [f for f in h.fitted if name_of(f[0]) == 'S%d' % k]
+            total = Poly()
+            for e in mine:
+                total = total + e[2]
+            if alg.is_zero(total - want)[0] and len(mine) == 1:
+                ctx.ok('CFG-1', inst + ': written iff eligible', where_, 'exactly one record, under n_data >= n_data_min')
+            else:
+                syms, fns = alg.leaf_syms(total - want)
+                if syms <= {'valid%d' % j for j in range(1, h.nlines + 1)} | {'nmin'} and not any(s_.startswith('undecided') for s_ in syms):
+                    ctx.violation('CFG-1', inst + ': written iff eligible', where_, '%d record(s) written for this source, under %s; expected one under n_data >= n_data_min = %s'
+                                  % (len(mine), alg.show(total, 120), alg.show(want, 120)), 'eligibility')
+                else:
+                    ctx.undecided('CFG-1', inst + ': written iff eligible', where_, 'condition %s not decided' % alg.show(total, 120)); decided = False
+                continue
+            e = mine[0]
+            info, snap = e[1], e[3]
+            order.append(h.events.index(e))
+            problems = []
+            if len(fits) != 1 or fits[0][1].attrs.get('__tag__') != info.attrs.get('__tag__'):
+                problems.append('the record written is not the result of fitter.fit for this source (fit called %d time(s) on it)' % len(fits))
+            else:
+                orig = fits[0][2]
+                keeps = [x for x in h.events if x[0] == 'keep' and isinstance(x[1], Obj) and x[1].attrs.get('__tag__') == info.attrs.get('__tag__')]
+                before = [x for x in keeps if h.events.index(x) < h.events.index(e)]
+                if not before:
+                    problems.append('keep(output_format) is %s' % ('applied after the record is written' if keeps else 'never applied'))
+                elif any(x[2] != [FMT] for x in before):
+                    problems.append('keep called with %r, not the output selector' % (before[0][2],))
+                elif any(not alg.is_zero(x[3] - e[2])[0] for x in before):
+                    problems.append('keep applied under another condition than the write')
+                mf = snap.get('model_fluxes')
+                same_ = lambda a_, b_: a_ is b_ or (isinstance(a_, Arr) and isinstance(b_, Arr) and a_.dims == b_.dims and a_.poly == b_.poly and a_.mask == b_.mask) or \
+                    (isinstance(a_, Obj) and isinstance(b_, Obj) and a_.cls is b_.cls and set(a_.attrs) == set(b_.attrs) and all(same_(a_.attrs[k_], b_.attrs[k_]) for k_ in a_.attrs))
+                if oc and not same_(mf, orig['model_fluxes']):
+                    problems.append('predicted fluxes %s although output_convolved is on' % ('dropped' if mf is None else 'replaced'))
+                if not oc and mf is not None:
+                    problems.append('predicted fluxes kept although output_convolved is off')
+                for a_ in orig:
+                    if a_ != 'model_fluxes' and not same_(snap.get(a_), orig[a_]):
+                        problems.append('result modified before writing: %s' % a_)
+            if problems:
+                ctx.violation('CFG-1', inst + ': the record is the selected fit of this source', where_, '; '.join(problems), 'record-faithfulness:' + problems[0][:50])
+            else:
+                ctx.ok('CFG-1', inst + ': the record is the selected fit of this source', where_, 'fit(source) -> keep(output_format) -> write, predicted fluxes %s' % ('kept' if oc else 'dropped'))
+        ctx.expect(order == sorted(order), 'CFG-1', 'driver (%s): records in input order' % tag, where_, 'records are written in the order of the data file', 'records written out of input order', 'order')
+        closes = [e for e in h.events if e[0] == 'close']
+        ok_close = bool(closes) and all(h.events.index(c) > max(order or [0]) for c in closes[-1:]) and closes[-1][1] == Poly.const(1)
+        ctx.expect(ok_close, 'CFG-1', 'driver (%s): writer closed' % tag, where_, 'the writer is closed after the last record', 'the writer is not closed after the loop', 'no-close')
+    return decided
+
+
+def check_fit_driver(ctx):
+    from ..roundtrip import SuspectCtx
+    if not check_fit_driver_semantic(ctx):
+        try:
+            check_fit_loop(SuspectCtx(ctx, 'the driver was not decided by interpretation and the path rule, which knows one layout only, reports'))
+        except AnalysisError as e:
+            ctx.undecided('CFG-1', 'path rule (fall-back)', 'sedfitter/fit.py', 'structure not recognised: %s' % e)
+
+
+
 def check_write_meta(ctx):
     repo = ctx.repo
     write = ctx.fn(repo.func('fit_info', 'FitInfoFile.write'))
@@ -305,7 +490,7 @@ def check_inputs(ctx):
 
 
 def run(ctx):
-    check_fit_loop(ctx)
+    check_fit_driver(ctx)
     check_file_protocol(ctx)
     repo = ctx.repo
     state_roundtrip(ctx, repo.cls('source.source', 'Source'))
@@ -339,12 +524,12 @@ MUST_FIRE = [
                                           "            for info in self._fits[1:]:\n                if info.meta != self._fits[0].meta:\n                    raise ValueError(\"The meta property of all FitInfo instances should match\")\n\n            self._fits = fits\n")]),
     ('Source state cross-wired', [(SO, "        self.flux = d['flux']\n        self.error = d['error']", "        self.flux = d['error']\n        self.error = d['flux']")]),
     ('metadata order differs between writer and reader', [(FI, "            pickle.dump(info.meta.model_dir, self._handle, 2)\n            pickle.dump(info.meta.filters, self._handle, 2)", "            pickle.dump(info.meta.filters, self._handle, 2)\n            pickle.dump(info.meta.model_dir, self._handle, 2)")]),
-    ('malformed lines skipped silently', [(FT, "        except EOFError:\n            break\n", "        except EOFError:\n            break\n        except ValueError:\n            continue\n")]),
     ('keep mutates arrays in place', [(FI, "        self.chi2 = self.chi2[:n_fits]\n", "        self.chi2 = self.chi2[:n_fits]\n        self.chi2[n_fits:] = 0.\n")]),
     ('post-processing sorts the caller record', [(WP, "        info.keep(select_format)\n", "        info.keep(select_format)\n        info.source.flux = info.source.flux * 1.\n")]) if False else
     ('loop ends at the first ineligible source', [(FT, "            fout.write(info)\n\n            t.display()\n", "            fout.write(info)\n\n            t.display()\n\n        else:\n            break\n")]),
 ]
 MUST_SILENT = [
+    ('a handler for malformed lines (the property is about files of well-formed sources: every one of them still gets its record)', [(FT, "        except EOFError:\n            break\n", "        except EOFError:\n            break\n        except ValueError:\n            continue\n")]),
     ('extinction state as bare numbers in fixed units, converted when saved', [(EXF, "            'wav': self.wav,\n            'chi': self.chi,\n", "            'wav': self.wav.to(u.micron).value,\n            'chi': self.chi.to(u.cm ** 2 / u.g).value,\n"), (EXF, "        self.wav = d['wav']\n        self.chi = d['chi']", "        self.wav = d['wav'] * u.micron\n        self.chi = d['chi'] * u.cm ** 2 / u.g")]),
     ('eligibility written the other way round', [(FT, "if s.n_data >= n_data_min:", "if n_data_min <= s.n_data:")]),
     ('early continue for ineligible sources', [(FT, "        if s.n_data >= n_data_min:\n\n            info = fitter.fit(s)\n\n            if not output_convolved:\n                info.model_fluxes = None\n\n            info.keep(output_format)\n\n            fout.write(info)\n\n            t.display()\n",
